@@ -4,6 +4,8 @@ import (
 	"context"
 	"fmt"
 
+	"github.com/libp2p/go-libp2p/core/peer"
+
 	datatransfer "github.com/filecoin-project/go-data-transfer/v2"
 	"github.com/filecoin-project/go-data-transfer/v2/message"
 
@@ -45,7 +47,7 @@ func c08(x *mc.Cell, pull bool, limit uint64, k, depth, maxDev int) {
 					x.Violate("C08", fmt.Sprintf("%s;pull=%v", sig, pull), fmt.Sprintf("pull=%v initial-limit=%d sizes=%v ops=%v: %s", pull, limit, sizes, log, msg), rep())
 				}
 				for step := 0; step < depth; step++ {
-					ch := c.Choose(9, fmt.Sprintf("op%d", step))
+					ch := c.Choose(10, fmt.Sprintf("op%d", step))
 					st0, err := n.Vec(chid)
 					if err != nil {
 						panic(err)
@@ -54,10 +56,17 @@ func c08(x *mc.Cell, pull bool, limit uint64, k, depth, maxDev int) {
 						break
 					}
 					switch {
-					case ch == 0: // report next block
+					case ch == 0 || ch == 9: // report next block (9: while the network cannot deliver the responder's messages)
+						failing := ch == 9
+						if failing && pull {
+							continue // a pull responder's pause notice travels with the transport, not over the network
+						}
 						if idx == len(sizes) {
 							step = depth
 							continue
+						}
+						if failing {
+							n.Net.FailSend = func(int, peer.ID, datatransfer.Message) error { return doubles.ErrSend }
 						}
 						size := sizes[idx]
 						idx++
@@ -72,10 +81,16 @@ func c08(x *mc.Cell, pull bool, limit uint64, k, depth, maxDev int) {
 							sig = n.H().OnDataReceived(chid, Root(), size, int64(idx), true)
 						}
 						mc.Wait()
+						n.Net.FailSend = nil
 						d := n.Since(mk)
 						after, _ := n.Vec(chid)
-						log = append(log, fmt.Sprintf("report#%d(size %d)->%v", idx, size, sig))
+						log = append(log, fmt.Sprintf("report#%d(size %d,send-fails=%v)->%v", idx, size, failing, sig))
 						paused := sig == datatransfer.ErrPause
+						if failing {
+							// the pause notice cannot be sent: the report may return the send error instead of the pause signal,
+							// but it must not tell the transport to carry on
+							paused = sig != nil
+						}
 						if sig != nil && !paused {
 							viol("report-error", fmt.Sprintf("block report returned %v", sig))
 						}
@@ -121,7 +136,7 @@ func c08(x *mc.Cell, pull bool, limit uint64, k, depth, maxDev int) {
 							if !after.RPaused {
 								viol("crossing-responder-not-paused", fmt.Sprintf("total %d -> %d, limit %d", tBefore, t, l))
 							}
-							if !notified {
+							if !notified && !failing {
 								viol(fmt.Sprintf("crossing-initiator-not-told;wrong-peer=%v", wrongPeer), fmt.Sprintf("total %d -> %d, limit %d: %s", tBefore, t, l, d))
 							}
 						}
